@@ -108,6 +108,7 @@ theorem go_mono (cfg : Cfg) (P : Prog) (env : Env) (fuel self : Nat) (inSub : Bo
     have e : sb = .viol v lg := by rw [← hsb]; exact hs1.trans hr'
     subst e
     simp only []
+    rfl
   all_goals (rw [go]; simp_all; done)
 
 /-- more fuel never changes a proper answer -/
